@@ -220,7 +220,9 @@ func (p c11) check(rc Recipe, st State, rep *runner.Reporter) {
 						continue
 					}
 					dbytes := []int{rt.DefRangePtr.Start.Byte}
-					if rt.DefRangePtr.End.Byte-rt.DefRangePtr.Start.Byte > 2 {
+					// (on broken files parser recovery yields headers that span unrelated text:
+					// only the start of the definition range is asked there)
+					if rt.DefRangePtr.End.Byte-rt.DefRangePtr.Start.Byte > 2 && (st.Mut.Kind == "none" || st.Mut.Kind == "") {
 						dbytes = append(dbytes, (rt.DefRangePtr.Start.Byte+rt.DefRangePtr.End.Byte)/2)
 					}
 					for _, db := range dbytes {
